@@ -186,4 +186,47 @@ var engScenarios = []func(r *engRun){
 	},
 }
 
+// write an earlier content back (the model sees the earlier literal again)
+func (r *engRun) revertSource(s int, lit int) {
+	path := r.p.Sources[s].Path
+	os.WriteFile(filepath.Join(r.root, r.p.Paths[path]), []byte(fmt.Sprintf("lit-%d\n", lit)), 0644)
+	r.litOf[path] = lit
+	r.emitFile(path, lit, "revert to an earlier content")
+}
+
+func init() {
+	// a build is killed after a body ran with edited inputs but before its record was written; the edit is then
+	// reverted: the record still describes the old inputs, the outputs on disk come from the edited ones
+	engScenarios = append(engScenarios, func(r *engRun) {
+		s := r.mkSource("")
+		a := r.mkTarget("", nil, []int{s}, 1, false, 0)
+		top := r.mkTarget("", []int{a.ID}, nil, 1, false, 0)
+		r.emitProj("scenario: killed after the body, edit reverted")
+		r.build(top.ID, "build", nil, "", "scenario")
+		first := r.litOf[r.p.Sources[s].Path]
+		r.editSource(s)
+		r.build(top.ID, "build", nil, "eval.after_body|"+r.p.label(a.ID)+"|1", "killed after the body of the leaf")
+		r.revertSource(s, first)
+		o := r.build(top.ID, "build", nil, "", "recovery after the edit was reverted")
+		if o.Kind == "build" && o.OK {
+			r.checkClean(top.ID)
+		}
+		// an always-run killed in the MIDDLE of the leaf's body: nothing was edited, the record is untouched, the
+		// output exists but is incomplete -- the unfinished target must run again
+		r.build(top.ID, "always", nil, "partial|"+r.p.label(a.ID), "always-run killed inside the body of the leaf")
+		o = r.build(top.ID, "build", nil, "", "recovery")
+		if o.Kind == "build" && o.OK {
+			r.checkClean(top.ID)
+		}
+		// the same after a deleted output: the rebuild that re-creates it is killed inside the body
+		os.Remove(filepath.Join(r.root, r.p.Paths[a.Gens[0]]))
+		r.emitFile(a.Gens[0], 0, "delete output")
+		r.build(top.ID, "build", nil, "partial|"+r.p.label(a.ID), "rebuild of a deleted output killed inside the body")
+		o = r.build(top.ID, "build", nil, "", "recovery")
+		if o.Kind == "build" && o.OK {
+			r.checkClean(top.ID)
+		}
+	})
+}
+
 var _ = strings.Join
